@@ -62,9 +62,7 @@ namespace BitSerializer::MsgPack::Detail
 		[[nodiscard]] size_t GetPosition() const noexcept override {
 			return mBinaryStreamReader.GetPosition();
 		}
-		void SetPosition(size_t pos) override {
-			mBinaryStreamReader.SetPosition(pos);
-		}
+		void SetPosition(size_t pos) override;
 		[[nodiscard]] bool IsEnd() const noexcept override {
 			return mBinaryStreamReader.IsEnd();
 		}
